@@ -199,7 +199,7 @@ def gen_unit(rng, stream="main"):
         else:
             kind = rng.choice(["str", "stringio", "textwrapper", "simtext", "simtext", "simtext",
                                "bytes", "bytesio", "simbytes_seek", "simbytes_seek", "simbytes_noseek",
-                               "simbytes_noseek", "simbytes_seekraises", "http_plain", "http_chunked"])
+                               "simbytes_noseek", "simbytes_seekraises", "http_plain", "http_chunked", "http_addinfourl"])
         case = {"prop": PROP, "atoms": atoms, "mode": mode, "container": container, "scripting": scripting,
                 "kind": kind, "encoding": None, "declare": None}
         if kind in sources.BYTE_KINDS:
@@ -317,7 +317,7 @@ def classify_faults(case, payload, chars, log, stats):
         f["short_read"] = log.short_reads
     if log.one_item_reads:
         f["one_item_read"] = log.one_item_reads
-    if kind in ("simbytes_noseek", "http_plain", "http_chunked"):
+    if kind in ("simbytes_noseek", "http_plain", "http_chunked", "http_addinfourl"):
         f["no_seek"] = 1
     if kind == "simbytes_seekraises":
         f["seek_raises"] = 1
@@ -495,7 +495,7 @@ def shrinks(case):
             if c > case["chunk"]:
                 yield dict(case, chunk=c)
     # simpler kinds
-    simpler = {"http_chunked": "simbytes_noseek", "http_plain": "simbytes_noseek", "simbytes_seekraises": "simbytes_noseek",
+    simpler = {"http_addinfourl": "http_plain", "http_chunked": "simbytes_noseek", "http_plain": "simbytes_noseek", "simbytes_seekraises": "simbytes_noseek",
                "simbytes_noseek": "simbytes_seek", "simbytes_seek": "bytesio", "bytesio": "bytes",
                "textwrapper": "stringio", "simtext": "stringio", "stringio": "str"}
     if case["kind"] in simpler:
